@@ -202,7 +202,7 @@ theorem inv_step_mut (c : Cfg) (s s' : St) (op : Op) (h : Inv c s) (hs : step c 
           have := h.earlyRet hr
           rw [he] at this; cases this }
 
-theorem inv_step_addChild (c : Cfg) (s s' : St) (h : Inv c s) (hs : step c s .addChild = some s') : Inv c s' := by
+theorem inv_step_addChild (c : Cfg) (s s' : St) (d : Decision) (h : Inv c s) (hs : step c s (.addChild d) = some s') : Inv c s' := by
   simp only [step] at hs
   simp at hs; subst hs
   rcases h.act with ⟨he, ha⟩ | ⟨he, ha⟩
@@ -396,7 +396,7 @@ theorem inv_step_endReturn (c : Cfg) (s s' : St) (e : Nat) (sn : Snapshot) (h : 
 theorem inv_step (c : Cfg) (s s' : St) (l : Lbl) (h : Inv c s) (hs : step c s l = some s') : Inv c s' := by
   cases l with
   | «mut» op => exact inv_step_mut c s s' op h hs
-  | addChild => exact inv_step_addChild c s s' h hs
+  | addChild d => exact inv_step_addChild c s s' d h hs
   | access => simp only [step] at hs; simp at hs; subst hs; exact h
   | register p =>
     simp only [step] at hs
